@@ -332,6 +332,10 @@ class ADInterpreter(Pytree):
                     elif eqn.primitive is jax.lax.cond_p:
                         pure_env = Dual.tree_primal(dual_env)
 
+                        # The branches and the computation after the cond_p
+                        # draw from different keys.
+                        key, sub_key = jax.random.split(key)
+
                         # Create dual continuation for the computation after the cond_p.
                         def _cond_dual_kont(dual_tree: list[Any]):
                             dual_leaves = Dual.tree_pure(dual_tree)
@@ -359,7 +363,7 @@ class ADInterpreter(Pytree):
                         return jax.lax.cond(
                             Dual.tree_primal(in_vals[0]),
                             *reversed(branch_adev_functions),
-                            key,
+                            sub_key,
                             in_vals[1:],
                         )
 
